@@ -26,8 +26,8 @@ func TestMain(m *testing.M) {
 			"hold/release of a copier call site (to.ReceiveBlob, from.Fetch, queue.Delete = slow call), pause / settle (let the copier run), and restart (old wrappers fenced: calls in flight finish, every later call of the old handler's goroutines has no effect; new wrapper identities, hence a new blob hub, over the same contents and queue rows; a call held at restart never happens = crash at that point); "+
 			"then faults stop, holds are released and either one fresh blob is uploaded or the loop timer alone must retry. "+
 			"Checked synchronously in the wrappers: at every queue.Delete(ref) the destination holds ref bit-identically and acknowledged it to this handler; at every upload acknowledgement, every restart and the end: each acknowledged blob is in the destination or in the persistent queue; stores only hold uploaded bytes. "+
-			"Bounded eventuality: every acknowledged blob reaches the destination and rows are deleted (unless the Delete call itself was made and failed/raced); a miss counts as violation only after 15 s without ANY lower-layer call while work is pending (loop interval 5 s), otherwise inconclusive. "+
-			"non-trivial = at least one fault delivered to a copy attempt (from.Fetch, to.ReceiveBlob, queue.Delete) or a restart that found rows in the queue; distinct = FNV-64 of (config, pool refs, step list, final mode)")
+			"Bounded eventuality: every acknowledged blob reaches the destination and queue rows of delivered blobs are deleted (except rows whose queue.Delete was called and failed, and rows written by an enqueue that reported an error to the uploader); a miss counts as violation only after 15 s without ANY lower-layer call while work is pending (loop interval 5 s), otherwise inconclusive. "+
+			"Besides the rapid batches (16 quick / 24 thorough scenarios run concurrently per rapid case) a complete enumeration of single fault windows (every site x behaviour x length {1,3} x restart position {none, crash with the destination write pending, after settling}) and plain regressions of the two repaired defects run every time. non-trivial = at least one fault delivered to a copy attempt (from.Fetch, to.ReceiveBlob, queue.Delete) or a restart that found rows in the queue; distinct = FNV-64 of (config, pool refs, step list, final mode)")
 }
 
 func genStep(poolSize int) *rapid.Generator[step] {
